@@ -193,11 +193,7 @@ pub struct UdpWorld {
     pub txid: i32,
 }
 
-pub struct StepOut {
-    pub outcome: u64,
-    pub violations: Vec<Violation>,
-    pub compared: u64,
-}
+pub use crate::seqmc::StepOut;
 
 fn viol(sig: &str, what: String, ev: &Ev) -> Violation {
     Violation {
@@ -641,4 +637,120 @@ pub fn check_peer_list<T: Ord + Clone + std::fmt::Debug>(peers: &[T], others: &B
         return Some(format!("{} peers returned with limit {} and {} other members", peers.len(), limit, others.len()));
     }
     None
+}
+
+impl crate::seqmc::World<Ev> for UdpWorld {
+    fn apply(&mut self, ev: &Ev) -> StepOut {
+        UdpWorld::apply(self, ev)
+    }
+    fn invariants(&self) -> Vec<Violation> {
+        UdpWorld::invariants(self)
+    }
+    fn key(&self) -> u128 {
+        UdpWorld::key(self)
+    }
+    fn probes(&mut self) -> (u64, Vec<Violation>, u64) {
+        UdpWorld::probes(self)
+    }
+}
+
+/// Alphabet shared by the UDP / HTTP explorers
+#[derive(Clone, Debug)]
+pub struct Alphabet {
+    pub name: &'static str,
+    pub opts: WorldOpts,
+    pub keys: u8,
+    pub kinds: Vec<Kind>,
+    pub pids: Option<u8>,
+    pub ages: Vec<u32>,
+    pub lags: Vec<u32>,
+    pub numwants: Vec<i32>,
+    pub scrapes: Vec<Vec<u8>>,
+    pub clock_max: u32,
+    pub reloads: Vec<u8>,
+    pub clean: bool,
+}
+
+impl Alphabet {
+    pub fn events_at(&self, clock: u32) -> Vec<Ev> {
+        let a = self;
+        let mut evs = Vec::new();
+        if clock < a.clock_max {
+            evs.push(Ev::Tick);
+        }
+        if a.clean {
+            evs.push(Ev::Clean);
+        }
+        for v4 in &a.opts.families {
+            for s in &a.scrapes {
+                evs.push(Ev::Scrape { v4: *v4, hs: s.clone() });
+            }
+        }
+        for v4 in &a.opts.families {
+            for h in &a.opts.hashes {
+                for key in 0..a.keys {
+                    for kind in &a.kinds {
+                        for age in &a.ages {
+                            for lag in &a.lags {
+                                if *lag > clock {
+                                    continue;
+                                }
+                                for nw in &a.numwants {
+                                    match a.pids {
+                                        None => evs.push(Ev::Ann { v4: *v4, h: *h, key, kind: *kind, pid: key, age: *age, lag: *lag, numwant: *nw }),
+                                        Some(n) => {
+                                            for pid in 0..n {
+                                                evs.push(Ev::Ann { v4: *v4, h: *h, key, kind: *kind, pid, age: *age, lag: *lag, numwant: *nw });
+                                            }
+                                        }
+                                    }
+                                }
+                            }
+                        }
+                    }
+                }
+            }
+        }
+        for r in &a.reloads {
+            evs.push(Ev::Reload(*r));
+        }
+        evs
+    }
+}
+
+thread_local! {
+    static EXPORT_DIR: std::cell::RefCell<Option<tempfile::TempDir>> = const { std::cell::RefCell::new(None) };
+}
+
+pub fn thread_export_dir() -> PathBuf {
+    EXPORT_DIR.with(|d| {
+        let mut d = d.borrow_mut();
+        if d.is_none() {
+            let base = if std::path::Path::new("/dev/shm").is_dir() { "/dev/shm" } else { "/tmp" };
+            *d = Some(tempfile::Builder::new().prefix("aqv-export-").tempdir_in(base).expect("tempdir"));
+        }
+        d.as_ref().unwrap().path().to_path_buf()
+    })
+}
+
+pub struct UdpSys(pub Alphabet);
+
+impl crate::seqmc::Sys<Ev> for UdpSys {
+    type W = UdpWorld;
+    fn name(&self) -> String {
+        self.0.name.to_string()
+    }
+    fn tag(&self) -> &'static str {
+        "seqmc-udp"
+    }
+    fn fresh(&self) -> UdpWorld {
+        let mut o = self.0.opts.clone();
+        if o.export_dir.is_some() {
+            o.export_dir = Some(thread_export_dir());
+        }
+        UdpWorld::new(o)
+    }
+    fn events(&self, w: &UdpWorld) -> Vec<Ev> {
+        self.0.events_at(w.clock)
+    }
 }
